@@ -106,7 +106,7 @@ def tlc_trace(module, trace, wd, timeout=1800, heap="3g"):
     meta = f"{wd}/tmeta-{os.path.basename(trace)}-{time.time_ns()}"
     env = {"TRACE": trace,
            "JAVA_TOOL_OPTIONS": "-Xss1g -Dtlc2.tool.queue.IStateQueue=StateDeque"}
-    cmd = (f"{env_prefix} timeout {timeout} java -Xmx{heap} -XX:+UseParallelGC -cp {JAR} tlc2.TLC -workers 1 "
+    cmd = (f"timeout {timeout} java -Xmx{heap} -XX:+UseParallelGC -cp {JAR} tlc2.TLC -workers 1 "
            f"-metadir {meta} -cleanup -noGenerateSpecTE -config {module}.cfg {module}.tla")
     rc, out = sh(cmd, cwd=SPEC, env=env, timeout=timeout + 60)
     shutil.rmtree(meta, ignore_errors=True)
